@@ -44,14 +44,14 @@ def value_of(w, node):
 
 
 def run_history(ctx, case):
-    """re-run with the collection oracle; returns nothing, records failures"""
+    """re-run with the collection oracle: a shadow table, per node object, of the hash it was last
+    reported with (None after a reset of a subtree containing it)"""
     w = mc.World(case["kind"])
-    reported = set()       # (data, hash) values reported since the beginning
+    reported = {}          # id(node) -> hash value it was last reported with
     collects = 0
     changed_between = False
     nontrivial = False
     last_was_collect_of = None
-    pending_reset_root = None
     for k, op in enumerate(case["ops"]):
         tag = op[0]
         try:
@@ -65,11 +65,9 @@ def run_history(ctx, case):
         if tag == "force":
             last_was_collect_of = None
         if tag == "reset":
-            pending_reset_root = op[1]
             last_was_collect_of = None
-            # a reset forgets what was reported for that subtree
             for x in w.reachable(w.nodes[op[1]]):
-                pass
+                reported[id(x)] = None
         if tag == "coll":
             root = w.nodes[op[1]]
             got = {(d, h if isinstance(h, str) else hx(h)) for d, h in out[1]}
@@ -77,33 +75,31 @@ def run_history(ctx, case):
             if collects >= 2 and changed_between:
                 nontrivial = True
             changed_between = False
-            reported |= got
-            # every reachable node must have been reported with its CURRENT (from-scratch) hash
-            for x in w.reachable(root):
+            reach = w.reachable(root)
+            cur = {}
+            for x in reach:
                 try:
                     sh = w.scratch(x)
                 except RecursionError:
                     continue
-                v = (w.did[w.idx(x)], sh if isinstance(sh, str) else hx(sh))
-                if v not in reported:
-                    ctx.fail(case, f"after collect (op {k} {op}) node {w.idx(x)} has never been reported with its current hash", "collect-missed-node", {"op_index": k, "node": w.idx(x)})
+                cur[id(x)] = (w.did[w.idx(x)], sh if isinstance(sh, str) else hx(sh))
+                if cur[id(x)] in got:
+                    reported[id(x)] = cur[id(x)]
+            # every node currently under the root has been reported with its CURRENT hash since
+            # it was last reset
+            for x in reach:
+                if id(x) in cur and reported.get(id(x)) != cur[id(x)]:
+                    why = "after a reset" if reported.get(id(x), 0) is None else "with its current hash"
+                    ctx.fail(case, f"after collect (op {k} {op}) node {w.idx(x)} has not been reported {why}", "collect-missed-node", {"op_index": k, "node": w.idx(x)})
                     return nontrivial
             if last_was_collect_of == op[1] and got:
                 ctx.fail(case, f"collecting again without an intervening change (op {k} {op}) reports {len(got)} node(s)", "collect-not-idempotent", {"op_index": k})
                 return nontrivial
-            if pending_reset_root == op[1]:
-                want = set()
-                for x in w.reachable(root):
-                    sh = w.scratch(x)
-                    want.add((w.did[w.idx(x)], sh if isinstance(sh, str) else hx(sh)))
-                if got != want:
-                    ctx.fail(case, f"after reset_collect, collect (op {k} {op}) does not report every node again", "reset-then-not-all", {"op_index": k, "missing": sorted(want - got)[:5]})
-                    return nontrivial
-            pending_reset_root = None
+            # nothing outside the reachable nodes, and nothing with a wrong hash, is ever reported
+            if not got <= set(cur.values()):
+                ctx.fail(case, f"collect (op {k} {op}) reports a node/hash that is not in the tree", "collect-reports-stale", {"op_index": k})
+                return nontrivial
             last_was_collect_of = op[1]
-        elif tag in ("set", "del", "upd", "reset", "force"):
-            if tag != "reset":
-                pending_reset_root = None
     return nontrivial
 
 
